@@ -18,6 +18,12 @@ CHECKS = {
  'C06': dict(engine='pool', tech='TLA+ pool machine with value semantics (action property ValueSemantics checked by TLC); TLC enumerates call histories producer -> in-place over a pool of live objects; every live object projected and compared after every replayed step',
              text='All two- and three-step histories (producer calls then in-place/overwrite calls on any live object) over shapes with rank-1 bonds and size-1 modes are enumerated by TLC from the pool machine; the real code is stepped along each and every live object is compared with the model state after every step, so a change of any non-target object (hidden aliasing or mutation) is a rejected trace.',
              note='trusted: TLC, value-semantics model, harness/pool.py; routine calls (solvers, integrators, data-driven) are covered by the recorded-trace direction, see DESIGN', ref='§5 C06'),
+ 'C04': dict(engine='pool', tech='TLA+ islands (spec/Islands.tla: odeco tensors with planted integer singular values, unimodular gauges) + pool actions IslOrthoTrunc/FromArray/OrthoTrunc; TLC computes the exact truncated tensor, ranks and squared errors; behaviours replayed into scikit_tt',
+             text='For every island x gauging x per-bond cap list and every (max_rank, threshold) of TT(array) TLC predicts the truncated tensor exactly (distinct spectra) or its error and ranks (ties); for all small general integer tensors the replay checks the rank cap, exactness without truncation and the quasi-optimality / threshold error bounds against the singular values of the exact unfoldings.',
+             note='trusted: TLC, Islands.tla (construction checked by TLC: IslCoresOK, QOK), numpy svd of exact unfoldings for the bounds on general tensors', ref='§5 C04'),
+ 'C05': dict(engine='pool', tech='TLA+ pool actions SvdO/PinvO on generic fills and on islands with planted spectra; TLC enumerates split indices, options and overwrite; replay checks isometries, reconstruction, singular values, Penrose pseudoinverse and operand-unchanged',
+             text='TLC enumerates all vector-type shapes x fills (incl. rank-deficient) x split indices x overwrite and the island catalogue x thresholds x rank caps x ortho flags (flags only after the matching sweep, as two-step histories); the model supplies the exact unfolding and planted spectrum, fixes which options have a determined effect, and requires the operand to be unchanged unless overwritten.',
+             note='trusted: TLC, Islands.tla, numpy.linalg.svd/pinv of the exact integer unfolding as evaluator for general tensors', ref='§5 C05'),
 }
 NA_REASON = 'check not built yet (work in progress)'
 
